@@ -5,8 +5,8 @@
    record is inhabited (Example ideal_sig_inhabited below).  Values are JSON values as parsed by
    the shared reference parser; objects with duplicate keys are outside the domain in which the
    model is tied to the code (see props/C02.json). *)
-From Verif Require Import Lib.Bytes Json.Ast Json.Parse Json.Print
-     Sign.Base64 Sign.Base64Facts Sign.Model Sign.Proofs Sign.Normal Sign.Instance Sign.IdealInstance.
+From Verif Require Import Lib.Bytes Json.Ast Json.Parse Json.Print Json.Render Json.CanonFacts
+     Json.ParseSound Sign.Base64 Sign.Base64Facts Sign.Model Sign.Proofs Sign.Normal Sign.Instance Sign.IdealInstance.
 Open Scope N_scope.
 
 Section C02.
@@ -25,30 +25,26 @@ Section C02.
   (* ... however the signed object is re-serialised: any text t' whose value is equivalent to
      the signed object (same members in any order, integers spelled differently; white space and
      escape spellings are gone after parsing) gets the verdict of the signed object - for every
-     name, key ID and key.  jequiv / normalise are C01's definitions; the one fact used about the
-     canonical printer, canon_print (normalise v) = canon_print v, is C01's lemma and enters as
-     the premise canon_norm. *)
-  Section Reserialisation.
-    Hypothesis canon_norm : forall v, canon_print (normalise v) = canon_print v.
+     name, key ID and key.  jequiv / normalise are C01's definitions (Json/Render.v); the one fact
+     used about the canonical printer is C01's theorem CanonFacts.canon_print_normalise:
+     canon_print (normalise v) = canon_print v.  No premise is left. *)
+  Theorem verdict_invariant_under_reserialisation : forall name kid p o t' v',
+    parse_json t' = Some v' -> jequiv v' o ->
+    verify_json verify sig_size_ok pk_size_ok name kid p t' = verify_value name kid p o.
+  Proof.
+    intros name kid p o t' v' P E. unfold verify_json. rewrite P.
+    apply verify_respects_jequiv. exact E.
+  Qed.
 
-    Theorem verdict_invariant_under_reserialisation : forall name kid p o t' v',
-      parse_json t' = Some v' -> jequiv v' o ->
-      verify_json verify sig_size_ok pk_size_ok name kid p t' = verify_value name kid p o.
-    Proof.
-      intros name kid p o t' v' P E. unfold verify_json. rewrite P.
-      apply (verify_respects_jequiv canon_norm). exact E.
-    Qed.
-
-    Theorem sign_then_verify_reserialised : forall name kid k m o t' v',
-      sign_value name kid k (JObj m) = Some o ->
-      parse_json t' = Some v' -> jequiv v' o ->
-      verify_json verify sig_size_ok pk_size_ok name kid (pub k) t' = true.
-    Proof.
-      intros name kid k m o t' v' S P E.
-      rewrite (verdict_invariant_under_reserialisation name kid (pub k) o t' v' P E).
-      eapply sign_then_verify_value; eauto.
-    Qed.
-  End Reserialisation.
+  Theorem sign_then_verify_reserialised : forall name kid k m o t' v',
+    sign_value name kid k (JObj m) = Some o ->
+    parse_json t' = Some v' -> jequiv v' o ->
+    verify_json verify sig_size_ok pk_size_ok name kid (pub k) t' = true.
+  Proof.
+    intros name kid k m o t' v' S P E.
+    rewrite (verdict_invariant_under_reserialisation name kid (pub k) o t' v' P E).
+    eapply sign_then_verify_value; eauto.
+  Qed.
 
   (* the text-level functions: SignJSON parses, signs the value and prints canonically, so that
      with the two theorems above every text equivalent to the value of its output verifies *)
@@ -125,46 +121,50 @@ Section C02.
 
   (* ... hence on every value that differs from the signed object in any member other than
      signatures and unsigned (value change, insertion, deletion, nested edit: the stripped values
-     are not equivalent).  Equivalence of JSON values and the injectivity of the canonical
-     printer up to it are the business of C01 (Json/CanonFacts.v: jequiv, json_wf,
-     canon_print_injective); they enter here as the premise canon_inj, to be discharged by
-     instantiation. *)
-  Section Tamper.
-    Variable jeq : json -> json -> Prop.
-    Variable json_wf : json -> Prop.
-    Hypothesis canon_inj : forall v v', json_wf v -> json_wf v' -> canon_print v = canon_print v' -> jeq v v'.
+     are not equivalent).  Equivalence of JSON values (jequiv), well-formedness (json_wf: every
+     number literal is grammatical - true of every parsed value, ParseSound.parse_wf) and the
+     injectivity of the canonical printer up to equivalence are C01's
+     (CanonFacts.canon_print_injective); no premise is left. *)
+  Theorem verify_sound_tamper : forall name kid k m o v' p,
+    sign_value name kid k (JObj m) = Some o ->
+    sig_at name kid v' = sig_at name kid o ->
+    json_wf (strip v') -> json_wf (strip (JObj m)) ->
+    ~ jequiv (strip v') (strip (JObj m)) ->
+    verify_value name kid p v' = false.
+  Proof.
+    intros name kid k m o v' p S A W W' N.
+    eapply verify_sound_tamper_canonical; eauto using canon_print_injective.
+  Qed.
 
-    Theorem verify_sound_tamper : forall name kid k m o v' p,
-      sign_value name kid k (JObj m) = Some o ->
-      sig_at name kid v' = sig_at name kid o ->
-      json_wf (strip v') -> json_wf (strip (JObj m)) ->
-      ~ jeq (strip v') (strip (JObj m)) ->
-      verify_value name kid p v' = false.
-    Proof.
-      intros name kid k m o v' p S A W W' N.
-      eapply verify_sound_tamper_canonical; eauto.
-    Qed.
-  End Tamper.
+  (* ... spelled out for single members: if some member other than signatures / unsigned is
+     bound to an inequivalent value (value change, nested edit), or is present on one side only
+     (insertion, deletion), the old signature is refused *)
+  Theorem verify_sound_member_change : forall name kid k m o m' p mkey,
+    sign_value name kid k (JObj m) = Some o ->
+    sig_at name kid (JObj m') = sig_at name kid o ->
+    json_wf (strip (JObj m')) -> json_wf (strip (JObj m)) ->
+    is_meta mkey = false -> member_differs mkey m' m ->
+    verify_value name kid p (JObj m') = false.
+  Proof.
+    intros name kid k m o m' p mkey S A W W' M D.
+    apply (verify_sound_tamper name kid k m o (JObj m') p S A W W').
+    apply (member_differs_not_jequiv mkey); assumption.
+  Qed.
 
-  (* ... spelled out for single members, with C01's equivalence: if some member other than
-     signatures / unsigned is bound to an inequivalent value (value change, nested edit), or is
-     present on one side only (insertion, deletion), the old signature is refused *)
-  Section TamperMembers.
-    Variable json_wf : json -> Prop.
-    Hypothesis canon_inj : forall v v', json_wf v -> json_wf v' -> canon_print v = canon_print v' -> jequiv v v'.
-
-    Theorem verify_sound_member_change : forall name kid k m o m' p mkey,
-      sign_value name kid k (JObj m) = Some o ->
-      sig_at name kid (JObj m') = sig_at name kid o ->
-      json_wf (strip (JObj m')) -> json_wf (strip (JObj m)) ->
-      is_meta mkey = false -> member_differs mkey m' m ->
-      verify_value name kid p (JObj m') = false.
-    Proof.
-      intros name kid k m o m' p mkey S A W W' M D.
-      apply (verify_sound_tamper jequiv json_wf canon_inj name kid k m o (JObj m') p S A W W').
-      apply (member_differs_not_jequiv mkey); assumption.
-    Qed.
-  End TamperMembers.
+  (* ... and on texts: the well-formedness side conditions hold of everything the parser
+     returns, so for parsed objects they disappear *)
+  Theorem verify_sound_member_change_parsed : forall name kid k t t' m o m' p mkey,
+    parse_json t = Some (JObj m) -> parse_json t' = Some (JObj m') ->
+    sign_value name kid k (JObj m) = Some o ->
+    sig_at name kid (JObj m') = sig_at name kid o ->
+    is_meta mkey = false -> member_differs mkey m' m ->
+    verify_json verify sig_size_ok pk_size_ok name kid p t' = false.
+  Proof.
+    intros name kid k t t' m o m' p mkey P P' S A M D. unfold verify_json. rewrite P'.
+    apply (verify_sound_member_change name kid k m o m' p mkey S A); try assumption.
+    - apply strip_wf. exact (parse_wf _ _ P').
+    - apply strip_wf. exact (parse_wf _ _ P).
+  Qed.
 
   (* ListKeyIDs returns exactly the member names of signatures.<name>, and every key ID under
      which VerifyJSON can accept is among them *)
@@ -255,5 +255,6 @@ Print Assumptions verify_accepts_only_genuine_signatures.
 Print Assumptions verify_sound_tamper_canonical.
 Print Assumptions verify_sound_tamper.
 Print Assumptions verify_sound_member_change.
+Print Assumptions verify_sound_member_change_parsed.
 Print Assumptions list_key_ids_spec.
 Print Assumptions ideal_sig_inhabited.
